@@ -2,6 +2,8 @@
 
 package stats
 
+import "go.etcd.io/bbolt"
+
 // VerifC08Unit returns copies of the client and domain counters of the current
 // unit of s.  It is compiled into the package only by the verification
 // overlay.
@@ -39,4 +41,17 @@ func VerifC08NoSync(s *StatsCtx) {
 // Close, and would keep every block's modules alive).
 func VerifC08InitWeb(s *StatsCtx) {
 	s.initWeb()
+}
+
+// VerifC08Flush runs one iteration of the periodic flush: when the unit-id
+// clock has moved on, the current unit is written to the database and a new
+// one is started.
+func VerifC08Flush(s *StatsCtx) {
+	_, _ = s.flush()
+}
+
+// VerifC08DB returns the open database of s (nil after Close) so that the
+// harness can read the buckets raw.
+func VerifC08DB(s *StatsCtx) (db *bbolt.DB) {
+	return s.db.Load()
 }
